@@ -242,6 +242,31 @@ def _grow_roles(ctx):
     return None
 
 
+def growth_bound(ctx):
+    """can_grow() is the only guard of grow(): at the maximal capacity it must say no (grow() would index one past the bucket table)"""
+    rid = "WSD.index-mapping"
+    from .evalx import eval_pure
+    mx = None
+    for r in ctx.facts.records:
+        if r["pat"] == G[:-2] and "max_capacity" in r.get("consts", {}):
+            mx = r["consts"]["max_capacity"] if mx is None else min(mx, r["consts"]["max_capacity"])
+    for fn in flow._shapes(ctx, G + "can_grow"):
+        consts = [n_["v"] for n_ in fn.nodes if isinstance(n_.get("v"), int) and (n_.get("name", "").endswith("max_capacity") or n_.get("leaf") == "max_capacity")]
+        m_ = consts[0] if consts else mx
+        if not m_:
+            ctx.broken.append("growing_circular_array::can_grow: max_capacity not found")
+            continue
+        try:
+            at_max = eval_pure(fn, {"call:capacity": (lambda m_=m_: m_)})
+            below = eval_pure(fn, {"call:capacity": (lambda m_=m_: m_ // 2)})
+        except Unknown as ex:
+            ctx.broken.append("can_grow not evaluable (%s)" % ex)
+            continue
+        ctx.check(not at_max and bool(below), rid, G + "can_grow#bound[max=%d]" % m_, "can_grow() is false at max_capacity and true below",
+                  "can_grow() returns %s at capacity == max_capacity (%d) and %s at half of it: at the maximal capacity a full deque grows once more, grow() stores the new bucket "
+                  "one past the bucket table (into the deque's own members) and the accepted item can never be returned" % (bool(at_max), m_, bool(below)), fn.where(), fn=fn)
+
+
 def stable_slot(ctx):
     """in-place growth: a reader that maps an index to a slot with a capacity snapshot must re-validate the snapshot after reading the slot"""
     rid = "WSD.stable-slot"
